@@ -370,6 +370,12 @@ PROPS["C15"] = {
           "a report with more blocks than RC can announce is rejected (or split) — never emitted with a wrapped count", bound="32 report blocks", module=RM, timeout=900),
         K("canary: report block inverse without clamping", "canary_report_block_unclamped", "quick", "canary", ["build_report_block"], "false claim, must FAIL", expect="fail", module=RM),
     ],
+    "verus": [
+        V("NACK packing preserves the set of lost sequence numbers, any list length (Verus)", "rtcp_nack_set", "quick", "proof",
+          ["pack_nack_pairs", "parse_nack_body"],
+          "verbatim pack_nack_pairs and parse_nack_body against RFC 4585 6.2.1 (PID lost; BLP bit i set <=> PID+i+1 lost, mod 2^16): for ANY list of sequence numbers the emitted (PID, BLP) pairs cover exactly the set of the list (loop invariants + a bit-vector lemma for blp |= 1 << k); for ANY FCI the expanded list contains exactly the numbers its pairs cover. sort_unstable / dedup enter through assumed contracts (sorted permutation; strictly increasing, same set)",
+          min_verified=9),
+    ],
 }
 
 # =============================================================================== C16
